@@ -5,6 +5,7 @@ import (
 	"sort"
 	"strings"
 	"testing"
+	"time"
 
 	"github.com/google/uuid"
 	"github.com/wrgl/wrgl/pkg/objects"
@@ -35,6 +36,14 @@ type CLICase struct {
 	Ops    []CLIOp `json:"ops"`
 	Expire bool    `json:"expire"` // transactionTTL = 1ns before the command
 	Cmd    string  `json:"cmd"`    // gc | prune
+	// TTL, when set (and Expire is false), is written to transactionTTL: long enough that no
+	// transaction of the case is expired ("2h", "30m")
+	TTL string `json:"ttl,omitempty"`
+	// ZoneMin: the process's local time zone during the case, minutes east of UTC (0 = UTC)
+	ZoneMin int `json:"zone_min,omitempty"`
+	// Long > 0: that many extra commits (each with its own table) on a branch that is deleted
+	// again, so that the object store holds a few hundred keys
+	Long int `json:"long,omitempty"`
 }
 
 var subCLI = evid.Register("gc-cli", runCLI)
@@ -44,8 +53,20 @@ var cliBranches = []string{"main", "b1", "b2"}
 func TestPropGCCLI(t *testing.T) {
 	rapid.Check(t, func(t *rapid.T) {
 		c := CLICase{Expire: rapid.IntRange(0, 2).Draw(t, "expire") != 0, Cmd: rapid.SampledFrom([]string{"gc", "gc", "prune"}).Draw(t, "cmd")}
+		if !c.Expire {
+			c.TTL = rapid.SampledFrom([]string{"", "2h", "30m"}).Draw(t, "ttl")
+		}
+		c.ZoneMin = rapid.SampledFrom([]int{0, 0, -480, 330, -210, 840}).Draw(t, "zone")
+		if rapid.IntRange(0, 24).Draw(t, "long") == 24 {
+			c.Long = rapid.SampledFrom([]int{45, 70}).Draw(t, "nlong")
+		}
 		n := rapid.IntRange(1, 10).Draw(t, "nops")
 		ntx := 0
+		if rapid.Bool().Draw(t, "txfirst") {
+			// a transaction holding a commit nothing else reaches
+			c.Ops = append(c.Ops, CLIOp{K: "txstart"}, CLIOp{K: "txcommit", T: 0, B: rapid.IntRange(0, 2).Draw(t, "txbranch"), V: rapid.IntRange(0, 5).Draw(t, "txvariant")})
+			ntx = 1
+		}
 		for i := 0; i < n; i++ {
 			k := rapid.IntRange(0, 99).Draw(t, "kind")
 			b := rapid.IntRange(0, 2).Draw(t, "branch")
@@ -151,11 +172,39 @@ func readState(repo *cli.Repo) (*storeState, error) {
 }
 
 func runCLI(c CLICase) (o evid.Outcome, err error) {
+	if c.ZoneMin != 0 {
+		saved := time.Local
+		time.Local = time.FixedZone(fmt.Sprintf("verif%+d", c.ZoneMin), c.ZoneMin*60)
+		defer func() { time.Local = saved }()
+	}
 	repo, err := cli.NewRepo()
 	if err != nil {
 		return o, fmt.Errorf("HARNESS: %v", err)
 	}
 	defer repo.Remove()
+	if c.Long > 0 {
+		// a long side history, unreachable once its branch is deleted
+		for i := 0; i < c.Long; i++ {
+			t := cliTable(0)
+			t.Rows[i%len(t.Rows)][1] = gen.Cell(fmt.Sprintf("long-%d", i))
+			fp, err := repo.WriteFile("long.csv", t.CSV(','))
+			if err != nil {
+				return o, fmt.Errorf("HARNESS: %v", err)
+			}
+			if out, err := repo.Run("commit", "longside", fp, fmt.Sprintf("long %d", i), "-p", "id"); err != nil {
+				return o, fmt.Errorf("HARNESS: commit on longside: %v (%s)", err, out)
+			}
+			if i == c.Long/2 {
+				// keep the older half reachable through a tag-like branch
+				if out, err := repo.Run("branch", "create", "longkeep", "longside"); err != nil {
+					return o, fmt.Errorf("HARNESS: branch create: %v (%s)", err, out)
+				}
+			}
+		}
+		if out, err := repo.Run("branch", "delete", "longside"); err != nil {
+			return o, fmt.Errorf("HARNESS: branch delete: %v (%s)", err, out)
+		}
+	}
 	files := map[int]string{}
 	file := func(v int) (string, error) {
 		if p, ok := files[v]; ok {
@@ -239,6 +288,10 @@ func runCLI(c CLICase) (o evid.Outcome, err error) {
 	}
 	if c.Expire {
 		if out, err := repo.Run("config", "set", "transactionTTL", "1ns"); err != nil {
+			return o, fmt.Errorf("HARNESS: config set transactionTTL: %v (%s)", err, out)
+		}
+	} else if c.TTL != "" {
+		if out, err := repo.Run("config", "set", "transactionTTL", c.TTL); err != nil {
 			return o, fmt.Errorf("HARNESS: config set transactionTTL: %v (%s)", err, out)
 		}
 	}
@@ -365,6 +418,12 @@ func runCLI(c CLICase) (o evid.Outcome, err error) {
 		o.Class("open-transaction-kept")
 	}
 	o.Class("cmd=%s", c.Cmd)
+	if c.ZoneMin != 0 {
+		o.Class("local-zone!=UTC")
+	}
+	if c.Long > 0 {
+		o.Class("long-history(>=45 commits)")
+	}
 	return o, nil
 }
 
